@@ -6,19 +6,19 @@ cd "$(dirname "$0")/.."
 WT=$(mktemp -d /tmp/vf-sv-XXXXXX); rmdir $WT
 git -C /repo worktree add -q --detach $WT HEAD || exit 2
 cleanup() { git -C /repo worktree remove --force $WT >/dev/null 2>&1; rm -rf $WT; }
-if ! git -C $WT apply "$SRC/patch.diff" 2>/tmp/vs.err; then echo "$NAME: patch does not apply: $(head -2 /tmp/vs.err)"; cleanup; exit 1; fi
+if ! git -C $WT apply "$SRC/patch.diff" 2>/tmp/vs-$NAME.err; then echo "$NAME: patch does not apply: $(head -2 /tmp/vs-$NAME.err)"; cleanup; exit 1; fi
 if grep -q 'speedups.c' "$SRC/patch.diff"; then (cd $WT && /venv/bin/python setup.py build_ext --inplace >/dev/null 2>&1); fi
-(cd $WT && timeout 120 /venv/bin/python "$SRC/demo.py" >/tmp/vs.with 2>&1); rc_with=$?
-(cd $WT && nice -n -10 env -u TORNADO_VERIF /venv/bin/python -m pytest -q -rf -p no:cacheprovider --timeout=900 --continue-on-collection-errors -n ${NJ:-8} > /tmp/vs.tests 2>&1)
+(cd $WT && timeout 120 /venv/bin/python "$SRC/demo.py" >/tmp/vs-$NAME.with 2>&1); rc_with=$?
+(cd $WT && nice -n -10 env -u TORNADO_VERIF /venv/bin/python -m pytest -q -rf -p no:cacheprovider --timeout=900 --continue-on-collection-errors -n ${NJ:-8} > /tmp/vs-$NAME.tests 2>&1)
 tests_ok=false
-if tail -3 /tmp/vs.tests | grep -q "1171 passed" && ! tail -3 /tmp/vs.tests | grep -q failed; then tests_ok=true; else
-  failed=$(grep '^FAILED ' /tmp/vs.tests | sed 's/^FAILED \([^ ]*\).*/\1/' | sort -u)
-  if [ -n "$failed" ] && (cd $WT && nice -n -10 env -u TORNADO_VERIF /venv/bin/python -m pytest -q -p no:cacheprovider --timeout=900 $failed >/tmp/vs.tests2 2>&1); then tests_ok="true (after serial rerun of $(echo "$failed" | wc -l) load-flaky tests)"; fi
+if tail -3 /tmp/vs-$NAME.tests | grep -q "1171 passed" && ! tail -3 /tmp/vs-$NAME.tests | grep -q failed; then tests_ok=true; else
+  failed=$(grep '^FAILED ' /tmp/vs-$NAME.tests | sed 's/^FAILED \([^ ]*\).*/\1/' | sort -u)
+  if [ -n "$failed" ] && (cd $WT && nice -n -10 env -u TORNADO_VERIF /venv/bin/python -m pytest -q -p no:cacheprovider --timeout=900 $failed >/tmp/vs-$NAME.tests2 2>&1); then tests_ok="true (after serial rerun of $(echo "$failed" | wc -l) load-flaky tests)"; fi
 fi
 git -C $WT checkout -q -- . ; if grep -q 'speedups.c' "$SRC/patch.diff"; then (cd $WT && /venv/bin/python setup.py build_ext --inplace >/dev/null 2>&1); fi
-(cd $WT && timeout 120 /venv/bin/python "$SRC/demo.py" >/tmp/vs.without 2>&1); rc_without=$?
+(cd $WT && timeout 120 /venv/bin/python "$SRC/demo.py" >/tmp/vs-$NAME.without 2>&1); rc_without=$?
 cleanup
-echo "$NAME: demo_with_change_exit=$rc_with demo_without_exit=$rc_without tests_pass=$tests_ok :: $(tail -1 /tmp/vs.with | cut -c1-160)"
+echo "$NAME: demo_with_change_exit=$rc_with demo_without_exit=$rc_without tests_pass=$tests_ok :: $(tail -1 /tmp/vs-$NAME.with | cut -c1-160)"
 if [ "$rc_with" != 0 ] && [ "$rc_without" = 0 ] && [ "$tests_ok" != false ]; then
   mkdir -p seeded/$NAME; cp "$SRC/patch.diff" "$SRC/demo.py" seeded/$NAME/
   /venv/bin/python - "$SRC/meta.json" seeded/$NAME/meta.json "$rc_with" "$rc_without" "$tests_ok" <<'PY'
@@ -30,3 +30,4 @@ json.dump(m, open(sys.argv[2], "w"), indent=1)
 PY
   echo "$NAME: KEPT"
 else echo "$NAME: REJECTED"; fi
+rm -f /tmp/vs-$NAME.*
